@@ -299,6 +299,10 @@ class Ocp(Stage):
         # An invalidated transcription (edit after a solve) is not 'transcribed' any more,
         # but its Opti instance is still held by the method objects
         self._untranscribe_recurse(phase=1)
+        # ... and so is the transcribed copy of an earlier solve, which may refer to
+        # method objects that have been replaced since
+        for s in self.iter_stages(include_self=True):
+            s._var_augmented = None
         import pickle
         with rockit_pickle_context():
             pickle.dump(self,open(name,"wb"))
